@@ -113,9 +113,33 @@ def check_deleted_qubits(idx: Index, rep: Report):
     for c in edits:
         edited.append(sp.simplify(symx.to_sympy(c.args[1], env) - 1))      # edit_operator_for_spin substitutes Z on qubit (arg - 1)
     ef = idx.function(f"{SCBK}::edit_operator_for_spin")
-    ok = "(spin_orbital - 1, 'Z')" in full(ef.node)
-    rep.decide(ok, rule, ef, ef.node, text="edit_operator_for_spin substitutes Z on qubit spin_orbital - 1", what="the substituted qubit is the one below the given orbital count",
-               reason="substituted qubit index changed")
+    import itertools
+    from ..rules.circuitsem import make_folder
+    from .C14 import _QOp
+    rho = sp.Symbol("rho")
+    for so in (1, 2, 3):
+        words = list(itertools.product("IXYZ", repeat=3))
+        op = _QOp()
+        want = {}
+        for w in words:
+            cw = sp.Symbol("c_" + "".join(w))
+            op.terms[tuple((i, p) for i, p in enumerate(w) if p != "I")] = cw
+            if w[so - 1] == "Z":
+                key = tuple((i, p) for i, p in enumerate(w) if p != "I" and i != so - 1)
+                want[key] = want.get(key, 0) + rho * cw
+            else:
+                key = tuple((i, p) for i, p in enumerate(w) if p != "I")
+                want[key] = want.get(key, 0) + cw
+        fo = make_folder(idx, SCBK)
+        try:
+            got = fo.run_function(ef.node, {"qubit_operator": op, "spin_orbital": so, "orbital_parity": rho})
+        except (Undecidable, Raised) as e:
+            raise AnalysisError(f"edit_operator_for_spin not foldable: {e}")
+        gt = got.terms if isinstance(got, _QOp) else {}
+        bad = [w for w in set(gt) | set(want) if sp.simplify(gt.get(w, 0) - want.get(w, 0)) != 0]
+        rep.decide(not bad, rule, ef, ef.node, text=f"edit_operator_for_spin(op, {so}, rho): Z on qubit {so - 1} is replaced by rho in all 64 three-qubit words",
+                   what="the substituted qubit is the one below the given orbital count: every Z there becomes the parity eigenvalue, equal words are merged, nothing else changes",
+                   reason=f"word {bad[:1]}: got {gt.get(bad[0]) if bad else ''}, expected {want.get(bad[0]) if bad else ''}")
     prune = [n_ for n_ in own_nodes(enc.node) if isinstance(n_, ast.Assign) and norm(n_.targets[0]) == "to_prune"]
     if not prune or not isinstance(prune[0].value, ast.Tuple):
         raise AnalysisError("scBK: to_prune tuple not found")
@@ -150,8 +174,19 @@ def check_deleted_qubits(idx: Index, rep: Report):
                what="the reference-state encoder removes the same two qubits as the operator encoder (the larger index first, so that the smaller is unaffected)",
                reason=f"deletes {d1} then {d2}")
     g = idx.function(f"{SV}::get_mapped_vector")
-    ok = "return do_scbk_transform(vector, len(vector))" in full(g.node)
-    rep.decide(ok, rule, g, g.node, text="do_scbk_transform(vector, len(vector))", what="the register size handed to the encoder is the vector length", reason="call changed")
+    from ..consteval import FuncVal, Opaque
+    for utd in (True, False):
+        fo = make_folder(idx, SV)
+        fo.env["do_scbk_transform"] = FuncVal(ast.parse("def _probe(*a):\n    return ('probe', a)").body[0])
+        fo.env["warnings"] = Opaque("warnings")
+        vec = [sp.Symbol(f"v{i}") for i in range(6)]
+        try:
+            got = fo.run_function(g.node, {"vector": list(vec), "mapping": "scbk", "up_then_down": utd})
+        except (Undecidable, Raised) as e:
+            raise AnalysisError(f"get_mapped_vector not foldable for scBK: {e}")
+        ok = isinstance(got, tuple) and got[0] == "probe" and len(got[1]) == 2 and got[1][1] == 6
+        rep.decide(ok, rule, g, g.node, text=f"do_scbk_transform(vector, len(vector)), up_then_down={utd}", what="the register size handed to the state encoder is the vector length",
+                   reason=f"called with {got[1][1:] if isinstance(got, tuple) else got}")
 
 
 def check_dispatch(idx: Index, rep: Report):
@@ -198,8 +233,43 @@ def check_vector_to_circuit(idx: Index, rep: Report):
         ok = gates == want and c.fields["width"] == len(vec)
         rep.decide(ok, rule, f, f.node, text=f"vector {vec} -> X on {[i for i, v in enumerate(vec) if v]}, width {len(vec)}",
                    what="exactly the set positions get an X gate and the register keeps the full length", reason=f"gates {gates}, width {c.fields['width']}")
+    # the whole chain, folded for Jordan-Wigner: get_reference_circuit -> get_vector -> get_mapped_vector -> vector_to_circuit
+    from ..rules.circuitsem import make_folder
     rc = idx.function(f"{SV}::get_reference_circuit")
-    t = full(rc.node)
-    ok = "vector = get_vector(n_spinorbitals, n_electrons, mapping, up_then_down=up_then_down, spin=spin)" in t and "circuit = vector_to_circuit(vector)" in t
-    rep.decide(ok, rule, rc, rc.node, text="reference circuit = vector_to_circuit(get_vector(...)) with every argument passed through",
-               what="ordering and spin requests reach the occupation vector", reason="arguments dropped")
+    gv = idx.function(f"{SV}::get_vector")
+    n_cases = 0
+    for n_so in (4, 6):
+        for n_e in range(0, n_so + 1):
+            for spin in [None] + list(range(-n_e, n_e + 1)):
+                s_eff = spin if spin is not None else n_e % 2           # documented default: lowest spin
+                if (n_e + s_eff) % 2 or (n_e + s_eff) // 2 > n_so // 2 or (n_e - s_eff) // 2 > n_so // 2 or (n_e - s_eff) < 0 or (n_e + s_eff) < 0:
+                    continue
+                na, nb = (n_e + s_eff) // 2, (n_e - s_eff) // 2
+                inter = [0] * n_so
+                for k in range(na):
+                    inter[2 * k] = 1
+                for k in range(nb):
+                    inter[2 * k + 1] = 1
+                for utd in (False, True):
+                    want_vec = inter[::2] + inter[1::2] if utd else inter
+                    for mp in ("JW", "jw"):
+                        fo = make_folder(idx, SV, ctors=CTORS)
+                        try:
+                            got = fo.run_function(gv.node, {"n_spinorbitals": n_so, "n_electrons": n_e, "mapping": mp, "up_then_down": utd, "spin": spin})
+                            fo2 = make_folder(idx, SV, ctors=CTORS)
+                            circ = fo2.run_function(rc.node, {"n_spinorbitals": n_so, "n_electrons": n_e, "mapping": mp, "up_then_down": utd, "spin": spin})
+                        except Undecidable as e:
+                            raise AnalysisError(f"reference-state chain not foldable for ({n_so}, {n_e}, spin={spin}, up_then_down={utd}): {e}")
+                        except Raised as e:
+                            n_cases += 1
+                            rep.violation(rule, rc, rc.node, text=f"JW reference state: {n_so} spin-orbitals, {n_e} electrons, spin {spin}, up_then_down={utd}, mapping '{mp}'",
+                                          what="a valid request yields a reference state", reason=f"the chain raises {e.exc_type} for this valid request")
+                            continue
+                        gates = [(g.fields["name"], g.fields["target"]) for g in circ.fields["_gates"]]
+                        ok = list(got) == want_vec and gates == [("X", [i]) for i, v in enumerate(want_vec) if v] and circ.fields["width"] == n_so
+                        n_cases += 1
+                        rep.decide(ok, rule, rc, rc.node, text=f"JW reference state: {n_so} spin-orbitals, {n_e} electrons, spin {spin}, up_then_down={utd}",
+                                   what="the occupation vector has (n+2S)/2 alpha and (n-2S)/2 beta electrons in the lowest orbitals (lowest spin when none is given), "
+                                        "in the requested ordering, and the reference circuit flips exactly those qubits on the full register",
+                                   reason=f"vector {list(got)}, gates {gates}; expected occupations {want_vec}")
+    rep.floor("reference-state chain folds", n_cases, 60)
